@@ -21,9 +21,9 @@ def make_model(case):
     f = (180.0 / np.pi) if au == "deg" else 1.0
     om = np.array([OMS[(case["om0"] + 2 * i) % len(OMS)] for i in range(n)]) * f
     M0 = np.array([0.3 + 1.9 * i for i in range(n)]) * f
-    Pd = np.array([2.5, 17.0, 1.25, 300.0][:n]) + case.get("jit", 0.0)
+    Pd = np.array(([2.5, 17.0, 1.25, 300.0] + [5.5 + 3.25 * k for k in range(8)])[:n]) + case.get("jit", 0.0)
     P = Pd / 365.25 if case["punit"] == "yr" else Pd
-    e = np.array([0.0, 0.4, 0.0, 0.4][:n])
+    e = np.array(([0.0, 0.4] * 6)[:n])
     kf = 1000.0 if case["kunit"] == "m / s" else 1.0
     K = np.array(case["K"], dtype=float) * kf
     cols = {"P": (P, case["punit"]), "e": (e, ""), "omega": (om, au), "M0": (M0, au), "s": (np.zeros(n) + 0.5 * kf, case["kunit"]),
@@ -416,6 +416,12 @@ def build_cases(quick, seed):
                                                   t_ref=tr, poly_trend=pt, n_offsets=no, jit=jit,
                                                   colorder="rot" if (om0 + len(Ks) + (aunit == "deg")) % 2 else "canon",
                                                   numeric_t_ref=bool(tr and (om0 + len(Ks)) % 3 == 0)))
+    # table sizes equal to / around the number of packed columns (5 nonlinear, 7.. all): pack -> unpack must not confuse axes
+    for n in (5, 6, 7, 8, 9, 10):
+        for (tr, pt, no) in ((True, 1, 0), (True, 2, 1), (False, 3, 2)):
+            Ks = [KS[i % 4] for i in range(n)]
+            cases.append(dict(kind="table", K=Ks, om0=n % 6, aunit="rad" if n % 2 else "deg", kunit="km / s", punit="d", t_ref=tr, poly_trend=pt,
+                              n_offsets=no, jit=jit, colorder="canon" if n % 2 else "rot"))
     chains = []
     depth = 3 if quick else 4
     base = [dict(K=[-3.0, 2.0, -0.5], om0=1, aunit="deg", kunit="m / s", punit="yr", t_ref=True, poly_trend=2, n_offsets=1, jit=jit),
